@@ -13,6 +13,7 @@ The inference "per-chain frame disjointness + A14 => schedule independence" is t
 from __future__ import annotations
 
 import copy
+import os
 import itertools
 import json
 
@@ -154,6 +155,8 @@ class StubQueue:
         self.popped = 0
         self.interrupt_delivered = False
         self.gets_after_interrupt = 0
+        self.n_gets = 0
+        self.raise_interrupt_at_get = None  # the parent process itself receives SIGINT while waiting in its k-th get (a real Ctrl-C reaches the whole process group)
 
     def _pv_getattr(self, ex, name):
         if name == "put":
@@ -162,6 +165,9 @@ class StubQueue:
             return Native(lambda ex2: not self.items, "empty")
         if name == "get":
             def get(ex2, block=True, timeout=None):
+                self.n_gets += 1
+                if self.raise_interrupt_at_get == self.n_gets:
+                    raise PyRaise(Obj(ex2.interp.builtins["KeyboardInterrupt"], {"args": ()}))
                 if self.interrupt_delivered:
                     self.gets_after_interrupt += 1
                     if self.gets_after_interrupt > 40:
@@ -182,6 +188,44 @@ class StubQueue:
         raise PyRaise(make_exc(ex.interp, "AttributeError", name))
 
 
+def proxy_progress_bar(run, it):
+    """contract of the worker-side progress bar that the model of _sample_chains_parallel relies on: it puts ONLY progress tuples (job, index, data) on the
+    progress queue -- the start message on entry and nothing on exit, normal or exceptional.  `None` (chain terminated early) and exception objects are
+    reserved messages of _sample_chains_worker; a bar that emitted one of them would make the parent count a chain twice / stop waiting before the worker's
+    own report arrives"""
+    run.function("mici.progressbars._ProxySequenceProgressBar.__enter__/__exit__")
+    tag = "progressbars._ProxySequenceProgressBar"
+    PB = "mici.progressbars"
+
+    def h(ctx):
+        how = ctx.choose(3, "exit")  # 0 normal exit, 1 left by KeyboardInterrupt, 2 left by another exception
+        mod = it.module(PB)
+        ex = Exec(it, ctx, mod, mod.env, "harness")
+        q = StubQueue()
+        try:
+            bar = ex.call(mod.resolve("_ProxySequenceProgressBar", ctx), [[10, 11, 12], 7, q], {})
+            ent = ex.call(ex.getattr(bar, "__enter__"), [], {})
+            ok_enter = q.items == [(7, 0, None)] and ent is bar
+            ctx.run.ob(f"{run.prop}/{tag}.__enter__/announces-the-job-with-a-progress-tuple", core.DISCHARGED if ok_enter else core.FAILED, "pyvc", detail="" if ok_enter else str(q.items))
+            n0 = len(q.items)
+            if how == 0:
+                args = [None, None, None]
+            else:
+                ecls = it.builtins["KeyboardInterrupt" if how == 1 else "ValueError"]
+                args = [ecls, Obj(ecls, {"args": ()}), Opaque("traceback")]
+            ret = ex.call(ex.getattr(bar, "__exit__"), args, {})
+        except PyRaise as pr:
+            ctx.run.ob(f"{run.prop}/{tag}.__exit__/puts-nothing-on-the-progress-queue", core.FAILED, "pyvc", detail=f"{exc_name(pr.exc)} {pr.exc.attrs.get('args')}")
+            return
+        extra = q.items[n0:]
+        ok = not extra and not ret
+        ctx.run.ob(f"{run.prop}/{tag}.__exit__/puts-nothing-on-the-progress-queue", core.DISCHARGED if ok else core.FAILED, "pyvc",
+                   detail="" if ok else f"exit {['normal', 'by KeyboardInterrupt', 'by ValueError'][how]}: queued {extra}, returned {ret} "
+                   "(None is the worker's 'chain terminated early' message: the parent would count this chain as finished before the worker reports the interrupt)",
+                   witness={"exit": how}, text="__exit__ (normal or exceptional) queues no message and does not swallow the exception")
+    it.explore(h, "proxy-progress-bar", roots=[[0], [1], [2]])
+
+
 def parallel(run, it, prop="C14"):
     run.function("mici.samplers._sample_chains_parallel")
     run.function("mici.samplers._sample_chains_worker")
@@ -196,6 +240,9 @@ def parallel(run, it, prop="C14"):
         # each worker is then interrupted in the chain it is running and the chains still queued are never started
         interrupt_chain = (ctx.choose(NCH + 2, "interrupted-chain") - 1) if prop == "C15" else -1
         interrupt_all = interrupt_chain == NCH
+        # ... and the parent: with every worker interrupted, the parent may receive the same SIGINT inside its own wait on the progress queue, before it has
+        # read the workers' reports
+        parent_interrupt_at = ctx.choose(3, "parent-interrupted-in-get") if interrupt_all else 0
         mod = it.module(MOD)
         ex = Exec(it, ctx, mod, mod.env, "harness")
         empty_cls = it.builtins["Exception"]
@@ -211,6 +258,8 @@ def parallel(run, it, prop="C14"):
                 if name == "Queue":
                     def mk(ex2):
                         q = StubQueue(order=perm if len(g["queues"]) == 1 else None)  # 2nd queue created is the chain queue
+                        if not g["queues"] and parent_interrupt_at:
+                            q.raise_interrupt_at_get = parent_interrupt_at
                         g["queues"].append(q)
                         return q
                     return Native(mk, "Queue")
@@ -320,6 +369,13 @@ def parallel(run, it, prop="C14"):
                            text="termination: after the first KeyboardInterrupt item the parent performs no further get on the progress queue")
             sampled = sorted(s_["chain"] for s_ in g["sampled"])
             got = [getattr(s_, "_name", None) for s_ in states]
+            if parent_interrupt_at:
+                okp = isinstance(exc, Obj) and exc.cls.name == "KeyboardInterrupt"
+                ctx.run.ob(tag + "/interrupt-received-by-the-parent-itself-is-reported-to-the-stage-loop", core.DISCHARGED if okp else core.FAILED, "pyvc",
+                           detail="" if okp else f"the parent was interrupted in its get #{parent_interrupt_at} on the progress queue; _sample_chains_parallel returned exception={exc}: "
+                           "sample_chains would finalize the adapters and start the next stage",
+                           witness={"parent_interrupted_in_get": parent_interrupt_at, "n_process": n_proc},
+                           text="a KeyboardInterrupt raised in the parent's own wait is returned as the stage's exception (so that no later stage is started)")
             if interrupt_chain >= 0:
                 oki = isinstance(exc, Obj) and exc.cls.name == "KeyboardInterrupt"
                 ctx.run.ob(tag + "/worker-interrupt-is-reported-to-the-parent", core.DISCHARGED if oki else core.FAILED, "pyvc", detail="" if oki else str(exc))
